@@ -30,8 +30,61 @@ PROJS = ['TAN', 'SIN', 'CAR']
 ARCSEC = 1.0 / 3600.0
 HISTORY_P = 0.4                      # fraction of cases whose region / WCS objects have a history (see 'history mode')
 BAND = Fraction(1, 10 ** 6)          # relative distance to the boundary below which membership is not compared
-OPS = {'and': operator.and_, 'or': operator.or_, 'xor': operator.xor}
-OPNAME = {'and_': 'and', 'or_': 'or', 'xor': 'xor'}
+# operators of compound regions.  Both constructors accept ANY callable; besides the three of the public API (&, |, ^) a small
+# family of NON-COMMUTATIVE callables is used (the order of the two component answers matters).  Model name = "table:" +
+# the truth table at (F,F), (F,T), (T,F), (T,T).
+def cop_difference(a, b):            # a & ~b
+    return np.logical_and(a, np.logical_not(b))
+
+
+def cop_reverse_difference(a, b):    # ~a & b
+    return np.logical_and(np.logical_not(a), b)
+
+
+def cop_implication(a, b):           # ~a | b
+    return np.logical_or(np.logical_not(a), b)
+
+
+def cop_first(a, b):                 # a
+    return a
+
+
+OPS = {'and': operator.and_, 'or': operator.or_, 'xor': operator.xor,
+       'table:0010': cop_difference, 'table:0100': cop_reverse_difference, 'table:1101': cop_implication, 'table:0011': cop_first}
+OPNAME = {'and_': 'and', 'or_': 'or', 'xor': 'xor', 'cop_difference': 'table:0010', 'cop_reverse_difference': 'table:0100',
+          'cop_implication': 'table:1101', 'cop_first': 'table:0011'}
+STD_OPS = ['and', 'or', 'xor']
+CUSTOM_OPS = ['table:0010', 'table:0100', 'table:1101', 'table:0011']
+
+
+def gen_op(rng):
+    return rng.choice(CUSTOM_OPS) if rng.random() < 0.4 else rng.choice(STD_OPS)
+
+
+def op_value(op, a, b):
+    if op in STD_OPS:
+        return {'and': a and b, 'or': a or b, 'xor': a != b}[op]
+    return op[len('table:'):][2 * int(a) + int(b)] == '1'
+
+
+def spec_contains(d, x, y):
+    """exact Spec membership and boundary margin (regiongen's for the simple classes; compounds with any of the operators above)."""
+    if d['kind'] != 'compound':
+        return G.spec_contains(d, x, y)
+    a, ma = spec_contains(d['a'], x, y)
+    b, mb = spec_contains(d['b'], x, y)
+    r = op_value(d['op'], a, b)
+    if not G.truthy(d.get('include', 'absent')):
+        r = not r
+    return r, min(ma, mb)
+
+
+def operators_kept(a, b):
+    """compound nodes whose `operator` object is not the SAME object after a conversion."""
+    if not hasattr(a, 'operator') or not hasattr(b, 'operator'):
+        return []
+    return (([] if a.operator is b.operator else [getattr(a.operator, '__name__', repr(a.operator))])
+            + operators_kept(a.region1, b.region1) + operators_kept(a.region2, b.region2))
 
 
 def F(x):
@@ -232,7 +285,7 @@ def gen_pix_compound(rng, wd, depth):
     ca, cb = G.approx_center(a), G.approx_center(b)
     sa = min(G.approx_size(a), 60.0)
     move_desc(b, ca[0] - cb[0] + rng.uniform(-0.7, 0.7) * sa, ca[1] - cb[1] + rng.uniform(-0.7, 0.7) * sa)
-    d = {'kind': 'compound', 'op': rng.choice(['and', 'or', 'xor']), 'a': a, 'b': b}
+    d = {'kind': 'compound', 'op': gen_op(rng), 'a': a, 'b': b}
     # how the constructor is called: explicit dictionaries, or None (= region1's)
     d['meta_arg'] = None if rng.random() < 0.35 else gen_meta(rng, p_empty=0.5)
     d['visual_arg'] = None if rng.random() < 0.5 else gen_visual(rng, p_empty=0.6)
@@ -539,7 +592,7 @@ def gen_sky_compound(rng, wd, wcs, depth):
         return gen_sky_leaf(rng, wd, wcs, kind=rng.choice([k for k in G.SIMPLE_KINDS if k != 'regular_polygon']))
     a = gen_sky_compound(rng, wd, wcs, rng.randint(0, depth - 1))
     b = gen_sky_compound(rng, wd, wcs, rng.randint(0, depth - 1))
-    d = {'kind': 'compound', 'op': rng.choice(['and', 'or', 'xor']), 'a': a, 'b': b}
+    d = {'kind': 'compound', 'op': gen_op(rng), 'a': a, 'b': b}
     d['meta_arg'] = None if rng.random() < 0.5 else gen_meta(rng, p_empty=0.5)
     d['visual_arg'] = None if rng.random() < 0.5 else gen_visual(rng, p_empty=0.6)
     return d
@@ -556,7 +609,7 @@ def gen_sky_empty_compound(rng, wd, wcs, depth):
         return d
     a = gen_sky_empty_compound(rng, wd, wcs, rng.randint(0, depth - 1))
     b = gen_sky_empty_compound(rng, wd, wcs, rng.randint(0, depth - 1))
-    return {'kind': 'compound', 'op': rng.choice(['and', 'or', 'xor']), 'a': a, 'b': b,
+    return {'kind': 'compound', 'op': gen_op(rng), 'a': a, 'b': b,
             'meta_arg': None if rng.random() < 0.15 else gen_meta(rng, p_empty=0.0),
             'visual_arg': None if rng.random() < 0.5 else gen_visual(rng, p_empty=0.6)}
 
@@ -569,7 +622,7 @@ def gen_pix_empty_compound(rng, wd, depth):
         return d
     a = gen_pix_empty_compound(rng, wd, rng.randint(0, depth - 1))
     b = gen_pix_empty_compound(rng, wd, rng.randint(0, depth - 1))
-    d = {'kind': 'compound', 'op': rng.choice(['and', 'or', 'xor']), 'a': a, 'b': b,
+    d = {'kind': 'compound', 'op': gen_op(rng), 'a': a, 'b': b,
          'meta_arg': None if rng.random() < 0.15 else gen_meta(rng, p_empty=0.0),
          'visual_arg': None if rng.random() < 0.5 else gen_visual(rng, p_empty=0.6)}
     d['include'] = eff_meta(d)['include']
@@ -951,6 +1004,7 @@ def compute(case):
             back = sky.to_pixel(wcs)
         except Exception as e:
             return {'real': {'exc': f'{type(e).__name__}: {e}'}, 'req': None}
+        notes['operator_replaced'] = operators_kept(reg, sky) + operators_kept(sky, back)
         pts = case['pts']
         px = np.array([p[0] for p in pts], dtype=float)
         py = np.array([p[1] for p in pts], dtype=float)
@@ -998,6 +1052,7 @@ def compute(case):
         back = pix.to_sky(wcs)
     except Exception as e:
         return {'real': {'exc': f'{type(e).__name__}: {e}'}, 'req': None}
+    notes['operator_replaced'] = operators_kept(sreg, pix) + operators_kept(pix, back)
     pp = PixCoord.from_sky(skypts, wcs)
     ppx, ppy = np.ravel(pp.x).astype(float), np.ravel(pp.y).astype(float)
     if not _finite(pix_points(pix), sky_points(back), ppx, ppy):
@@ -1152,8 +1207,17 @@ def has_nonempty_compound_dict(c):
 
 class Check(PropertyCheck):
     id = 'C06'
-    lean_targets = ['RegionsVerif.Props.C06']
-    namespaces = ['RegionsVerif.Props.C06']
+    lean_targets = ['RegionsVerif.Props.C06', 'RegionsVerif.Bridge.ConvGlue']
+    namespaces = ['RegionsVerif.Props.C06', 'RegionsVerif.Bridge.ConvGlue']
+
+    def translate(self):
+        # tie T: regenerate Gen/ConvGlue.lean (every to_sky / to_pixel method, the sky-side contains, the WCS helper)
+        import importlib.util, os
+        from .common import VERIF
+        spec = importlib.util.spec_from_file_location('convglue', os.path.join(VERIF, 'tools', 'convglue.py'))
+        mod = importlib.util.module_from_spec(spec)
+        spec.loader.exec_module(mod)
+        return mod.main()
     parallel = True
     level = 'proof'
     rule = ('real astropy.wcs.WCS: TAN/SIN/CAR x linear part encoded as PC+CDELT(-s,s) / full CD matrix / parity flip inside PC with positive CDELT / CROTA2+CDELT (the same transformation) x rotation -180..180 deg x pixel scale 0.01arcsec..0.1deg (log-uniform) x both parities x '
@@ -1164,6 +1228,7 @@ class Check(PropertyCheck):
             '(circle, ellipse, rectangle, polygon, regular polygon, 3 annuli, point, line, text) and compounds to depth 2, every sky class, '
             'sizes 0.015..240 px, any angle/unit, meta (include in {absent,True,False,1,0}, label/comment/text/name/tag) and visual '
             '(color/linewidth/fontsize/rotation), compound constructors called with explicit and with None dictionaries; '
+            'compound operators: &, |, ^ and (40%) a non-commutative callable (a&~b, ~a&b, ~a|b, a) kept by identity through the conversions; '
             'HISTORY MODE (40% of the cases): the region object is first built with other parameters and/or the WCS object with other settings, converted / queried once, then every parameter is re-assigned through the public setters and/or the WCS is edited in place (crval/crpix/cdelt/pc + set()), the first result is mutated by the caller, and only then the compared conversion is made; the model and the oracle know only the final parameters and the final WCS; two successive results must not share PixCoord/meta/visual objects. '
             'pixel->sky->pixel and sky->pixel->sky; 12 query positions per region (cloud + near-boundary). '
             'Non-trivial = geometry round trip of a region with a size/angle, or a membership comparison with both answers present.')
@@ -1270,7 +1335,7 @@ class Check(PropertyCheck):
             d = G_desc(case['region'])
             band = band_for(case, d)
             for p, rp, rs, mp_, ms in zip(case['pts'], real['contains_pix'], real['contains_sky'], model['contains_pix'], model['contains_sky']):
-                _, mg = G.spec_contains(d, F(p[0]), F(p[1]))
+                _, mg = spec_contains(d, F(p[0]), F(p[1]))
                 if mg < band:
                     continue
                 if rp != mp_ or rs != ms:
@@ -1283,7 +1348,7 @@ class Check(PropertyCheck):
             return False
         band = band_for(case, real['pix_desc'])
         for p, rs, rp, ms, mp_ in zip(real['pix_pts'], real['contains_sky'], real['contains_pix'], model['contains_sky'], model['contains_pix']):
-            _, mg = G.spec_contains(real['pix_desc'], F(p[0]), F(p[1]))
+            _, mg = spec_contains(real['pix_desc'], F(p[0]), F(p[1]))
             if mg < band:
                 continue
             if rs != ms or rp != mp_:
@@ -1326,6 +1391,8 @@ class Check(PropertyCheck):
         notes = real.get('notes') or {}
         hist = case.get('history')
         htxt = f' [history: {hist["mode"]}, warm call {hist["warm_call"]}, first result mutated: {hist["mutate_first"]}]' if hist else ''
+        if notes.get('operator_replaced'):
+            bad('operator_changed', f'the operator object of a compound is not kept by the conversion: {notes["operator_replaced"]}')
         if notes.get('shared'):
             bad('results_share_state', f'two successive conversions of the same object return regions sharing {notes["shared"]}{htxt}')
         # the converted positions are the WCS images of the CURRENT positions under the CURRENT WCS (independent evaluation)
@@ -1381,11 +1448,11 @@ class Check(PropertyCheck):
             d_lost = G_desc(case['region'], drop_compound_include=True)
             band = band_for(case, d)
             for p, a, b in zip(case['pts'], real['contains_pix'], real['contains_sky']):
-                exp, mg = G.spec_contains(d, F(p[0]), F(p[1]))
+                exp, mg = spec_contains(d, F(p[0]), F(p[1]))
                 if mg < band:
                     continue
                 if a != b:
-                    exp_lost, _ = G.spec_contains(d_lost, F(p[0]), F(p[1]))
+                    exp_lost, _ = spec_contains(d_lost, F(p[0]), F(p[1]))
                     if f2 and lost and b == exp_lost and a == exp:
                         bad('compound_membership_changed', f'position {p}: pixel region says {a}, its sky image says {b} '
                             '(include flag of a compound node lost by to_sky)', f2_class=True)
@@ -1395,7 +1462,7 @@ class Check(PropertyCheck):
         else:
             band = band_for(case, real['pix_desc'])
             for p, a, b in zip(real['pix_pts'], real['contains_sky'], real['contains_pix']):
-                _, mg = G.spec_contains(real['pix_desc'], F(p[0]), F(p[1]))
+                _, mg = spec_contains(real['pix_desc'], F(p[0]), F(p[1]))
                 if mg < band:
                     continue
                 if a != b:
